@@ -69,7 +69,9 @@ type dirPredicates struct {
 }
 
 // evalDirectivePredicates runs the directive package of the working tree on its whole (finite) domain
-func evalDirectivePredicates(repo string, n int) dirPredicates {
+// runAgainstRepo compiles and runs a small program against the working tree of the repository
+// (same requirements and replacements as its go.mod) and returns what it prints.
+func runAgainstRepo(repo, prog, what string) string {
 	dir, err := os.MkdirTemp("", "go2coq-eval-")
 	if err != nil {
 		panic(failure{err.Error()})
@@ -108,6 +110,22 @@ func evalDirectivePredicates(repo string, n int) dirPredicates {
 	if sum, err := os.ReadFile(filepath.Join(repo, "go.sum")); err == nil {
 		_ = os.WriteFile(filepath.Join(dir, "go.sum"), sum, 0o644)
 	}
+	if err := os.WriteFile(filepath.Join(dir, "main.go"), []byte(prog), 0o644); err != nil {
+		panic(failure{err.Error()})
+	}
+	cmd := exec.Command("go", "run", ".")
+	cmd.Dir = dir
+	cmd.Env = append(os.Environ(), "GOFLAGS=-mod=mod")
+	var stderr strings.Builder
+	cmd.Stderr = &stderr
+	out, err := cmd.Output()
+	if err != nil {
+		panic(failure{what + " failed (does the tree compile?): " + err.Error() + "\n" + stderr.String()})
+	}
+	return string(out)
+}
+
+func evalDirectivePredicates(repo string, n int) dirPredicates {
 	prog := fmt.Sprintf(`package main
 
 import (
@@ -129,18 +147,7 @@ func main() {
 	}
 }
 `, n)
-	if err := os.WriteFile(filepath.Join(dir, "main.go"), []byte(prog), 0o644); err != nil {
-		panic(failure{err.Error()})
-	}
-	cmd := exec.Command("go", "run", ".")
-	cmd.Dir = dir
-	cmd.Env = append(os.Environ(), "GOFLAGS=-mod=mod")
-	var stderr strings.Builder
-	cmd.Stderr = &stderr
-	out, err := cmd.Output()
-	if err != nil {
-		panic(failure{"evaluating the directive predicates failed (does the tree compile?): " + err.Error() + "\n" + stderr.String()})
-	}
+	out := runAgainstRepo(repo, prog, "evaluating the directive predicates")
 	res := dirPredicates{ctx: map[int][]int{}, str: make([]string, n)}
 	for _, l := range strings.Split(string(out), "\n") {
 		f := strings.SplitN(l, " ", 4)
@@ -382,6 +389,7 @@ func genIncludeName(repo string, jc map[string]string) string {
 		return coqString(v)
 	}
 	bound := map[string]string{} // local bool vars -> rendered check condition
+	helperDepth := 0
 	var condOf func(e ast.Expr) string
 	condOf = func(e ast.Expr) string {
 		switch x := e.(type) {
@@ -416,6 +424,21 @@ func genIncludeName(repo string, jc map[string]string) string {
 			}
 		case *ast.CallExpr:
 			fn := src(x.Fun)
+			// a boolean helper of the package over the same string: func h(s string) bool { return <cond> }
+			if id, ok := x.Fun.(*ast.Ident); ok && len(x.Args) == 1 && src(x.Args[0]) == pn {
+				if hd := findFunc(files, "", id.Name); hd != nil && hd.Type.Results != nil && len(hd.Type.Results.List) == 1 &&
+					src(hd.Type.Results.List[0].Type) == "bool" && len(hd.Body.List) == 1 && helperDepth < 3 {
+					if rs, ok := hd.Body.List[0].(*ast.ReturnStmt); ok && len(rs.Results) == 1 {
+						saved := pn
+						pn = paramName(hd, 0)
+						helperDepth++
+						r := condOf(rs.Results[0])
+						helperDepth--
+						pn = saved
+						return r
+					}
+				}
+			}
 			if len(x.Args) == 2 && src(x.Args[0]) == pn {
 				if bl, ok := x.Args[1].(*ast.BasicLit); ok {
 					switch {
@@ -450,9 +473,60 @@ func genIncludeName(repo string, jc map[string]string) string {
 				continue
 			}
 		case *ast.IfStmt:
-			if x.Init == nil && x.Else == nil {
-				checks = append(checks, fmt.Sprintf("(%s, %s)", condOf(x.Cond), errOf(x.Body)))
-				continue
+			// if c1 { return .. } [else if c2 { return .. }]*
+			{
+				var cs []string
+				cur, ok := x, true
+				for {
+					if cur.Init != nil {
+						ok = false
+						break
+					}
+					cs = append(cs, fmt.Sprintf("(%s, %s)", condOf(cur.Cond), errOf(cur.Body)))
+					if cur.Else == nil {
+						break
+					}
+					nx, isIf := cur.Else.(*ast.IfStmt)
+					if !isIf {
+						ok = false
+						break
+					}
+					cur = nx
+				}
+				if ok {
+					checks = append(checks, cs...)
+					continue
+				}
+			}
+		case *ast.SwitchStmt:
+			// switch { case <cond>: return errors.New(...) ... }: the clauses in order, like a chain of ifs
+			if x.Init == nil && x.Tag == nil {
+				ok := true
+				var cs []string
+				for k, cl := range x.Body.List {
+					cc := cl.(*ast.CaseClause)
+					if cc.List == nil {
+						// default: return nil, as the last clause
+						if k == len(x.Body.List)-1 && len(cc.Body) == 1 && src(cc.Body[0]) == "return nil" {
+							continue
+						}
+						ok = false
+						break
+					}
+					var alts []string
+					for _, l := range cc.List {
+						alts = append(alts, condOf(l))
+					}
+					c := alts[len(alts)-1]
+					for j := len(alts) - 2; j >= 0; j-- {
+						c = "IOr (" + alts[j] + ") (" + c + ")"
+					}
+					cs = append(cs, fmt.Sprintf("(%s, %s)", c, errOf(&ast.BlockStmt{List: cc.Body})))
+				}
+				if ok {
+					checks = append(checks, cs...)
+					continue
+				}
 			}
 		case *ast.RangeStmt:
 			// for _, seg := range strings.Split(s, "/") { if seg == "." || seg == ".." { return ... } }
